@@ -231,14 +231,17 @@ pub struct Kids {
     pub k: Const<VI>,
     /// put the lifetime into argument lists as well
     pub with_lifetime_arg: bool,
+    /// put the const into argument lists as well (after the lifetime)
+    pub with_const_arg: bool,
 }
 
 impl Kids {
     pub fn args(&self) -> Substitution<VI> {
-        if self.with_lifetime_arg {
-            subst(&[ga_ty(self.c0), ga_lt(self.l), ga_ty(self.c1)])
-        } else {
-            subst(&[ga_ty(self.c0), ga_ty(self.c1)])
+        match (self.with_lifetime_arg, self.with_const_arg) {
+            (true, true) => subst(&[ga_ty(self.c0), ga_lt(self.l), ga_const(self.k), ga_ty(self.c1)]),
+            (true, false) => subst(&[ga_ty(self.c0), ga_lt(self.l), ga_ty(self.c1)]),
+            (false, true) => subst(&[ga_ty(self.c0), ga_const(self.k), ga_ty(self.c1)]),
+            (false, false) => subst(&[ga_ty(self.c0), ga_ty(self.c1)]),
         }
     }
 }
